@@ -142,7 +142,9 @@ class CGraph:
 
         for nf,f in enumerate(self.dependentFunctionList):
             try:
-                f.xbar[...] = xbar_list[nf]
+                # accumulate (all bar values have just been set to zero): two
+                # dependent nodes may be overlapping views of one array
+                f.xbar += xbar_list[nf]
             except Exception as e:
                 err_str  = 'tried to initialize the bar value of  cg.dependentFunctionList[%d], but some error occured:\n'%nf
                 err_str += 'the assignment:  f.xbar[...] = xbar_list[%d]\n'%(nf)
